@@ -5,7 +5,7 @@ From Coq Require Import ExtrOcamlBasic List NArith ZArith String.
 Require Import Lib.GoStr Ssz.Sha256 Ssz.Ssz Ssz.Rotation.
 Require Import Fsm.EngineDefs Fsm.Types Fsm.Engine Fsm.Actions Fsm.Provider.
 Require Import Node.Types Node.Process.
-Require Import Board.File.
+Require Import Board.File Node.Serial.
 Require Gen.Skeletons.
 Extraction Language OCaml.
 Set Extraction Optimize.
@@ -14,5 +14,6 @@ Extraction "model.ml"
   sha256 model_signing_root spec_signing_root reconstruct_baked tasks_to_messages
   dec_of_Z parse_int64
   fsm_case from_dump inst_do obs_of_do dump_of create round_step do_on_dump mem_case
-  node_case node_step recover classify
+  node_case node_step recover classify ops_visible
+  pending_after a_labels b_labels in_lost_window
   send_seq get_messages Gen.Skeletons.count_limit Gen.Skeletons.read_limit.
